@@ -11,7 +11,7 @@ LEVEL = "exploration"
 RULE = ("seeded cases: 1-3 source trees/files/links (names with spaces, unicode, non-UTF-8 bytes; relative, absolute, "
         "dangling and directory links) x destination {absent, file, empty dir, dir populated by a copy of an older "
         "version with changed contents and retargeted links plus unrelated entries} x spellings (trailing slash, ./, "
-        "absolute, dir/../) x {-T, --target-directory, --glob} x driver x schedule; oracle: whole-sandbox snapshot "
+        "absolute, dir/../; sources nested below other directories, with spaces, non-ASCII characters or a newline in their own name; now and then a source subdirectory whose open is refused with EACCES) x {-T, --target-directory, --glob} x driver x schedule; oracle: whole-sandbox snapshot "
         "before/after vs. the model's mapping (kind, link text, bytes at every mapped path; every unmapped non-source "
         "entry unchanged; nothing new outside the mapped paths). distinct_nontrivial = distinct (driver, destination "
         "state, source shape, flag, spelling, kinds present) among exit-0 runs")
@@ -82,11 +82,18 @@ def gen_cases(tier, seed):
         driver = ["parfile", "parblock"][i % 2]
         nsrc = r.choice([1, 1, 1, 2, 3])
         spec, sources, shapes = [], [], []
+        flag0 = r.choice(["", "", "", "-T", "--target-directory", "--glob"])
+        nest = flag0 != "--glob" and r.random() < 0.2
+        if nest:
+            spec += [{"p": "nst", "k": "d"}, {"p": "nst/in", "k": "d"}]
         for k in range(nsrc):
             shape = r.choice(["tree", "tree", "tree", "file", "linkfile", "emptydir", "deep", "hardlink"]) if k or nsrc > 1 else r.choice(["tree", "tree", "file", "linkfile", "emptydir", "deep"])
             if shape == "hardlink" and not any(s_ == "file" for s_ in shapes):
                 shape = "file"
             name = "s%d" % k
+            if flag0 != "--glob":
+                # the source's own name and position: nested below other directories, with spaces, non-ASCII characters, a newline (the CLI itself rejects non-UTF-8 arguments)
+                name = ("nst/in/" if nest and r.random() < 0.7 else "") + name + r.choice(["", "", "", " x y", "-\xc3\xbc", "\nz"])
             if shape in ("tree", "deep"):
                 spec.append({"p": name, "k": "d"})
                 spec += tree.gen_tree(r, depth=2 if shape == "tree" else 5, fanout=4 if shape == "tree" else 2,
@@ -116,9 +123,7 @@ def gen_cases(tier, seed):
         spec += tree.gen_tree(r, depth=1, fanout=3, kinds=("f", "d", "l"), prefix="by", max_entries=6)
         has_dir = any(s in ("tree", "deep", "emptydir") for s in shapes)
         dstate = r.choice(["absent", "emptydir", "populated", "populated", "file", "linkdir"])
-        flag = r.choice(["", "", "", "-T", "--target-directory", "--glob"])
-        if dstate == "linkdir" and False:
-            pass
+        flag = flag0
         if nsrc > 1 and dstate in ("absent", "file"):
             dstate = "emptydir"
         if dstate == "file" and has_dir:
@@ -140,13 +145,13 @@ def gen_cases(tier, seed):
                 for s, shape in zip(sources, shapes):
                     if shape == "linkfile":
                         if r.random() < 0.5:
-                            pre.append({"p": "dst/" + s if flag != "-T" else "dst", "k": "l", "target": "stale-target"})
+                            pre.append({"p": "dst/" + os.path.basename(s) if flag != "-T" else "dst", "k": "l", "target": "stale-target"})
                         continue
                     if flag == "-T":
                         if shape in ("tree", "deep", "emptydir"):
                             pre += [e for e in older_version(r, spec, s, "dst") if e["p"] != "dst"]
                     else:
-                        pre += older_version(r, spec, s, "dst/" + s)
+                        pre += older_version(r, spec, s, "dst/" + os.path.basename(s))
                 if flag == "-T" and shapes[0] in ("file", "linkfile"):
                     # -T onto an existing directory with a non-directory source is an error case, not C02's
                     pre = [e for e in pre if e["p"] != "dst"] + []
@@ -187,7 +192,14 @@ def gen_cases(tier, seed):
             args += ["--target-directory", dsp] + srcargs
         else:
             args += srcargs + [dsp]
-        yield {"fs": "ext4", "spec": spec, "pre": pre, "args": args, "sources": sources, "shapes": shapes, "dstate": dstate,
+        # now and then one source subdirectory cannot be listed (its open is refused with EACCES, as for a mode-000 directory and
+        # an unprivileged user): exit 0 must still mean a complete mirror
+        deny = None
+        subdirs = [e["p"] for e in spec if e["k"] == "d" and any(e["p"].startswith(s_ + "/") for s_ in sources)
+                   and any(c["p"].startswith(e["p"] + "/") for c in spec)]
+        if subdirs and flag != "--glob" and r.random() < 0.1:
+            deny = r.choice(subdirs)
+        yield {"deny": deny, "fs": "ext4", "spec": spec, "pre": pre, "args": args, "sources": sources, "shapes": shapes, "dstate": dstate,
                "flag": flag, "spell": spell, "driver": driver, "T": flag == "-T",
                "sched": r.choice(["os", "os", "os", "pct"]), "sseed": r.randrange(1 << 30)}
 
@@ -205,7 +217,13 @@ def run_case(case):
         tree.materialize(root, subst(case["pre"], root))
         pre = tree.snapshot(root)
         args = [a.replace("@ROOT@", root) for a in case["args"]]
-        if case["sched"] == "os":
+        if case.get("deny"):
+            # (matched by suffix: the directory may be named relatively, absolutely or through dir/../; the destination copy of it is never opened)
+            run = core.run_xcp(sb, args, {"log_mode": "none", "rules": [{"id": "deny", "sys": "openat", "suffix": "/" + case["deny"], "action": "fault", "errno": 13}]})
+            res["counters"]["unlistable-dir-runs"] = 1
+            if run.verdict == "exited" and run.rule("deny")["applied"] == 0:
+                res["counters"]["unlistable-dir-not-reached"] = 1
+        elif case["sched"] == "os":
             run = core.run_plain(core.xcp_argv(args), root)
         else:
             run = core.run_xcp(sb, args, {"sched": "pct", "sched_seed": case["sseed"], "sched_d": 3, "log_mode": "none", "pct_horizon": 400})
@@ -214,6 +232,8 @@ def run_case(case):
             return res
         if not run.exit0:
             res["counters"]["nonzero-exit"] = 1
+            why = (run.stderr.strip().splitlines() or ["?"])[-1]
+            res["counters"]["nonzero:" + "".join(c if c.isalpha() or c == " " else "" for c in why.replace(root, ""))[:48]] = 1
             return res
         post = tree.snapshot(root)
         try:
@@ -234,7 +254,7 @@ def run_case(case):
         for frag, msg in model.check_untouched(pre, post, mapped, exempt=src_paths):
             where = "inside-dest" if msg.split("'")[1].startswith("dst") or msg.split('"')[0].startswith("dst") else "outside-dest"
             res["viol"].append({"sig": "%s:untouched:%s" % (case["driver"], frag), "what": "exit 0 but %s [%s] args=%s" % (msg, tag, " ".join(case["args"]))})
-        res["evals"].append({"key": [case["driver"], case["dstate"], tuple(sorted(set(case["shapes"]))), case["flag"], case["spell"], kinds],
+        res["evals"].append({"key": [case["driver"], case["dstate"], tuple(sorted(set(case["shapes"]))), case["flag"], case["spell"], kinds] + (["unlistable-dir"] if case.get("deny") else []),
                              "sample": {"args": case["args"], "dest_state": case["dstate"], "mapped_entries": len(mapping),
                                         "kinds": kinds, "some_mapped": [[m["src"], m["dst"]] for m in mapping[:5]]}})
         res["counters"]["exit0"] = 1
